@@ -16,6 +16,9 @@ pub struct WaveCase {
     pub blocks: Vec<BlockSpec>,
     /// step sizes (1..=16 T-states each), cycled
     pub schedule: Vec<u8>,
+    /// the tape asset returns at most this many bytes per read call (0 = no limit)
+    #[serde(default)]
+    pub asset_chunk: u8,
 }
 
 /// Drives the pulse generator with the schedule and returns the times of all EAR edges until
@@ -137,7 +140,10 @@ pub fn nominal_total(blocks: &[Vec<u8>]) -> u64 {
 pub fn check_wave(c: &WaveCase, rec: &mut Rec) -> Result<(), String> {
     let blocks: Vec<Vec<u8>> = c.blocks.iter().map(block_bytes).collect();
     let image = tap::write(&blocks);
-    let mut tap = Tap::from_asset(MemAsset::new(image)).map_err(|e| format!("from_asset: {:?}", e))?;
+    let mut tap = Tap::from_asset(MemAsset::chunked(image, c.asset_chunk as usize)).map_err(|e| format!("from_asset: {:?}", e))?;
+    if c.asset_chunk != 0 {
+        rec.class("tape-asset-with-short-reads");
+    }
     tap.play();
     let total = nominal_total(&blocks);
     let edges = record_edges(&mut tap, &c.schedule, total.saturating_sub(3_400_000), 4_200_000, total * 3 + 30_000_000)?;
@@ -332,7 +338,8 @@ fn small_block() -> impl Strategy<Value = BlockSpec> {
 }
 
 pub fn wave_strategy() -> impl Strategy<Value = WaveCase> {
-    (proptest::collection::vec(small_block(), 1..=3), schedule_strategy()).prop_map(|(blocks, schedule)| WaveCase { blocks, schedule })
+    (proptest::collection::vec(small_block(), 1..=3), schedule_strategy(), prop_oneof![2 => Just(0u8), 1 => 1u8..=255, 1 => prop_oneof![Just(1u8), Just(2), Just(3), Just(127), Just(129)]])
+        .prop_map(|(blocks, schedule, asset_chunk)| WaveCase { blocks, schedule, asset_chunk })
 }
 
 pub fn sys_strategy() -> impl Strategy<Value = SysCase> {
@@ -363,7 +370,7 @@ pub fn replay(run: &mut Run, phase: &str, case: &serde_json::Value) -> Result<()
 }
 
 pub const LEVEL: &str = "exploration";
-pub const RULE: &str = "waveform: TAP images of 1..3 blocks (all flag bytes, payload 0..260 bytes across the 128-byte refill boundary, right/wrong checksum) played through the pulse generator with time advanced by a cycled schedule of 1..64 steps of 1..16 T-states (uniform, all-1, all-16, sawtooth, instruction-like mixes); every interval between EAR edges is compared with the nominal list synthesised from the bytes: pilot count 8063 (+-1) for flag 0x00 / >= 3223 otherwise, 667, 735, two equal 855/1710 pulses per bit MSB first for every byte, pause 3.0..4.0 M T; each pulse within [nominal, nominal+32]; count and order exact. rom-loader-real-time: the real ROM LD-BYTES is called (requests as in C10) while the tape plays on the emulator (in half of the cases with the host's fast-load setting switched on: a playing deck must still deliver every block through EAR); carry, IX, DE and memory must equal the LD-BYTES model of the block's bytes (which C10 shows fast loading equals). ear-on-every-ula-address: while a block plays, IN from a generated even port address (high byte 0xFF, 0x00, 0xFE, 0xBF or any) must show in bit 6 the level that two bracketing reads of 0x7FFE show (samples where the bracketing reads differ are not judged). non-trivial (waveform) = block with >= 2 distinct bytes, length other than 19/6914, schedule with >= 3 distinct step sizes; (system) every request; distinct = hash of (block bytes, schedule) / (case, request)";
+pub const RULE: &str = "waveform: TAP images of 1..3 blocks (all flag bytes, payload 0..260 bytes across the 128-byte refill boundary, right/wrong checksum) played through the pulse generator (tape asset delivering everything at once or at most 1..255 bytes per read call) with time advanced by a cycled schedule of 1..64 steps of 1..16 T-states (uniform, all-1, all-16, sawtooth, instruction-like mixes); every interval between EAR edges is compared with the nominal list synthesised from the bytes: pilot count 8063 (+-1) for flag 0x00 / >= 3223 otherwise, 667, 735, two equal 855/1710 pulses per bit MSB first for every byte, pause 3.0..4.0 M T; each pulse within [nominal, nominal+32]; count and order exact. rom-loader-real-time: the real ROM LD-BYTES is called (requests as in C10) while the tape plays on the emulator (in half of the cases with the host's fast-load setting switched on: a playing deck must still deliver every block through EAR); carry, IX, DE and memory must equal the LD-BYTES model of the block's bytes (which C10 shows fast loading equals). ear-on-every-ula-address: while a block plays, IN from a generated even port address (high byte 0xFF, 0x00, 0xFE, 0xBF or any) must show in bit 6 the level that two bracketing reads of 0x7FFE show (samples where the bracketing reads differ are not judged). non-trivial (waveform) = block with >= 2 distinct bytes, length other than 19/6914, schedule with >= 3 distinct step sizes; (system) every request; distinct = hash of (block bytes, schedule) / (case, request)";
 pub const ASSUMPTIONS: &[&str] = &[
     "pulse generator is driven through the cfg(rustzx_verif) re-export of Tap/TapeImpl; time between toggles is measured at the granularity of the schedule steps",
     "the first pilot pulse of a block may merge with the preceding silence (pilot count tolerance of one)",
